@@ -189,6 +189,8 @@ func (fr *Frame) havoc(t types.Type, hint string) *Val {
 	return v
 }
 
+const replayBulk = 6
+
 const maxCap = "281474976710656" // 2^48
 
 // typeInv is the Go type-safety invariant of a value relative to the
@@ -286,6 +288,19 @@ func (fr *Frame) zeroRange(t types.Type, base, count string) {
 		}
 		return
 	}
+	if fr.vc.w.unroll > 0 {
+		// replay aid: sizes are bounded and the bulk operation is expanded
+		fr.vc.assume(imp(fr.reach, le(count, intLit(replayBulk))))
+		for k := int64(0); k < replayBulk; k++ {
+			for _, l := range flatten(t) {
+				rememberLeaf(l)
+				a := add(base, intLit(k*n+int64(l.Slot)))
+				cur := fr.vc.arr(fr.st, l)
+				fr.vc.setArr(fr.st, l, ite(lt(intLit(k), count), store(cur, a, zeroLeaf(l)), cur))
+			}
+		}
+		return
+	}
 	hi := add(base, mul(count, intLit(n)))
 	done := map[string]bool{}
 	for _, l := range flatten(t) {
@@ -321,6 +336,27 @@ func (fr *Frame) copyRange(t types.Type, dst, src, count string) {
 		}
 		for _, w := range ws {
 			fr.vc.setArr(fr.st, w.l, store(fr.vc.arr(fr.st, w.l), w.a, w.v))
+		}
+		return
+	}
+	if fr.vc.w.unroll > 0 {
+		fr.vc.assume(imp(fr.reach, le(count, intLit(replayBulk))))
+		type wr struct {
+			l    Leaf
+			a, v string
+			k    int64
+		}
+		var ws []wr
+		for k := int64(0); k < replayBulk; k++ {
+			for _, l := range flatten(t) {
+				rememberLeaf(l)
+				off := intLit(k*n + int64(l.Slot))
+				ws = append(ws, wr{l, add(dst, off), fr.vc.define("cp", l.Sort, sel(fr.vc.arr(fr.st, l), add(src, off))), k})
+			}
+		}
+		for _, w := range ws {
+			cur := fr.vc.arr(fr.st, w.l)
+			fr.vc.setArr(fr.st, w.l, ite(lt(intLit(w.k), count), store(cur, w.a, w.v), cur))
 		}
 		return
 	}
@@ -393,12 +429,18 @@ func (fr *Frame) mergeStates(cs []condState) *State {
 			gk[k] = true
 		}
 	}
-	for _, k := range sortedKeys(gk) {
-		t := cs[len(cs)-1].st.ghost[k]
-		for i := len(cs) - 2; i >= 0; i-- {
-			t = ite(cs[i].cond, cs[i].st.ghost[k], t)
+	gv := func(st *State, k string) string {
+		if t, ok := st.ghost[k]; ok {
+			return t
 		}
-		out.ghost[k] = fr.vc.define("g_"+k, ghostSort(k), t)
+		return fr.vc.ghostInit(k)
+	}
+	for _, k := range sortedKeys(gk) {
+		t := gv(cs[len(cs)-1].st, k)
+		for i := len(cs) - 2; i >= 0; i-- {
+			t = ite(cs[i].cond, gv(cs[i].st, k), t)
+		}
+		out.ghost[k] = fr.vc.define("g_"+sanitize(k), ghostSort(k), t)
 	}
 	return out
 }
@@ -679,6 +721,9 @@ func (fr *Frame) execLoop(l *Loop, in []*Edge) map[*ssa.BasicBlock][]*Edge {
 	if n, it := fr.unrollCount(l, in); n >= 0 {
 		return fr.execLoopUnrolled(l, in, n, it)
 	}
+	if k := fr.vc.w.unroll; k > 0 {
+		return fr.execLoopUnrolled(l, in, k, nil)
+	}
 	return fr.execLoopCut(l, in)
 }
 
@@ -709,8 +754,20 @@ func (fr *Frame) execLoopUnrolled(l *Loop, in []*Edge, n int, it *SymIter) map[*
 			break
 		}
 		fr.inst = fmt.Sprintf("%s_u%d", saveInst, k)
-		fr.iterPos[it] = k
+		if it != nil {
+			fr.iterPos[it] = k
+		}
 		rr := fr.execRegion(l.blocks, l.head, edges, l, false)
+		if it == nil && k == n {
+			// bounded unrolling (replay aid): remember how the last iteration loops on
+			var cs []string
+			for _, e := range rr.latches {
+				cs = append(cs, e.cond)
+			}
+			key := fmt.Sprintf("%s/loop%d", shortFuncName(fr.fn.String()), l.ord)
+			lc := fr.vc.define("latch", "Bool", or(cs...))
+			fr.vc.items = append(fr.vc.items, Item{Ob: &Obligation{Name: key + "/replay-latch", Kind: "replay-latch", Fn: key, Reach: lc, Goal: tFalse}})
+		}
 		for t, es := range rr.exits {
 			for _, e := range es {
 				e.over = map[ssa.Value]*Val{}
@@ -725,7 +782,9 @@ func (fr *Frame) execLoopUnrolled(l *Loop, in []*Edge, n int, it *SymIter) map[*
 		edges = rr.latches
 	}
 	fr.inst = saveInst
-	delete(fr.iterPos, it)
+	if it != nil {
+		delete(fr.iterPos, it)
+	}
 	return exits
 }
 
@@ -796,6 +855,9 @@ func (fr *Frame) execLoopCut(l *Loop, in []*Edge) map[*ssa.BasicBlock][]*Edge {
 	if lc != nil {
 		scope := fr.loopScope(l, phis, entryPhi)
 		for i, inv := range lc.Invariants {
+			if !clauseActive(inv.Tags, vc.w.prop) {
+				continue
+			}
 			t := fr.evalBool(inv.Expr, scope, pre, fr.entry)
 			vc.obligeNamed(fr, fmt.Sprintf("%s/loop%d/inv-entry/%d", fname, l.ord, i), "inv-entry", t, inv.Tags, inv.Src)
 		}
@@ -863,6 +925,9 @@ func (fr *Frame) execLoopCut(l *Loop, in []*Edge) map[*ssa.BasicBlock][]*Edge {
 		scope := fr.loopScope(l, phis, headVals)
 		fr.reach, fr.st = reachIn, head.st
 		for _, inv := range lc.Invariants {
+			if !clauseActive(inv.Tags, vc.w.prop) {
+				continue
+			}
 			vc.assume(imp(reachIn, fr.evalBool(inv.Expr, scope, head.st, fr.entry)))
 		}
 		for _, d := range lc.Decreases {
@@ -878,6 +943,9 @@ func (fr *Frame) execLoopCut(l *Loop, in []*Edge) map[*ssa.BasicBlock][]*Edge {
 		}
 		scope := fr.loopScope(l, phis, e.phi)
 		for i, inv := range lc.Invariants {
+			if !clauseActive(inv.Tags, vc.w.prop) {
+				continue
+			}
 			t := fr.evalBool(inv.Expr, scope, e.st, fr.entry)
 			vc.obligeNamed(fr, fmt.Sprintf("%s/loop%d/inv-preserved/%d@%d", fname, l.ord, i, li), "inv-preserved", t, inv.Tags, inv.Src)
 		}
@@ -908,7 +976,9 @@ func (fr *Frame) havocHead(l *Loop, phis []*ssa.Phi, pre *State, mod, modGhost m
 	trial := lc == nil
 	for _, k := range sortedKeys(mod) {
 		lf := leafByKey[k]
+		old := vc.arr(pre, lf)
 		st.heap[k] = vc.fresh(k, "(Array Int "+lf.Sort+")")
+		vc.staticFrame(st.heap[k], old)
 	}
 	for _, k := range sortedKeys(modGhost) {
 		st.ghost[k] = vc.fresh("g_"+k, ghostSort(k))
